@@ -159,11 +159,37 @@ func c18BoardView(r *kit.Run, rec *world.Recording, tier string, v int, senderKe
 			}
 			break
 		}
+		// reinitialisation messages (unauthenticated by design) with odd round ids, offered in every
+		// base state: refused ones must leave nothing behind
+		var reinits []mutant
+		for _, id := range []string{"", " ", "\t", "\n ", "x", strings.Repeat("9", 64)} {
+			var parts []types.Participant
+			for pi, nd := range w.Nodes {
+				parts = append(parts, types.Participant{DKGPubKey: w.Airs[pi].PubKeyBytes(), OldCommPubKey: nd.KeyPair.Pub, NewCommPubKey: nd.KeyPair.Pub, Name: nd.Name})
+			}
+			re := types.ReDKG{DKGID: id, Threshold: w.T, Participants: parts, Messages: replayedWithPatches(w, id)}
+			reinits = append(reinits, mutant{Label: fmt.Sprintf("reinit/round-id-%q", id), Msg: storage.Message{DkgRoundID: id, Event: string(types.ReinitDKG), Data: world.MustJSON(re), SenderAddr: "anyone"}})
+		}
 		for _, bs := range bases {
 			if r.TimeUp() {
 				return
 			}
 			bs.Snap = bs.Materialize(lab)
+			for _, mu := range reinits {
+				err, after, _ := lab.Step(bs.Snap, mu.Msg)
+				*evals++
+				classes["board|reinit_dkg|"+mu.Label] = true
+				trace := map[string]interface{}{"entry": "NodeService.ProcessMessage", "base": bs.String(), "event": "reinit_dkg", "mutation": mu.Label}
+				if pe, ok := err.(*PanicError); ok {
+					r.Violation("C18/panic/board/"+pe.Site, fmt.Sprintf("ProcessMessage panicked (in %s) in state %s on a reinit message with %s: %v", pe.Site, bs, mu.Label, pe.V), trace)
+				} else if err != nil {
+					if ch := changedProtected(bs.Snap, after); len(ch) > 0 {
+						r.Violation("C18/rejected-but-changed/board/reinit/"+strings.Join(classOfChanges(ch), "+"), fmt.Sprintf("in %s the rejected reinit message (%s) changed durable state: %v (error: %v)", bs, mu.Label, ch, err), trace)
+					} else if nr := newRounds(bs.Snap, after); len(nr) > 0 {
+						r.Violation("C18/rejected-but-changed/board/reinit/new-round", fmt.Sprintf("in %s the rejected reinit message (%s) left a new round %q behind (error: %v)", bs, mu.Label, nr[0], err), trace)
+					}
+				}
+			}
 			bs.Phase = bs.Snap.RoundState(rec.Round)
 			// the next genuine message and the most recent message of up to 3 other event types
 			cands := []int{}
